@@ -1,5 +1,7 @@
 """C06 - self-describing data files and recoverable channel properties."""
 
+import os
+
 from .. import core, rf, rfjobs, stage, universe as U
 from . import c01
 
@@ -52,7 +54,57 @@ def jobs(tier):
     return out
 
 
+def run_default_uuid(mode):
+    """Sessions started without an explicit uuid_str: every session gets its own identifier, and each file carries
+    the identifier of the session that wrote it."""
+    import digital_rf as drf
+    import h5py
+    import numpy as np
+
+    part = core.new_part()
+    top = core.new_scratch()
+    try:
+        chdir = os.path.join(top, "ch0")
+        os.makedirs(chdir)
+        n, d, fc, sc = 10, 3, 1000, 2
+        start = rf.first_sample_of_ms(1394333998000, n, d)
+        sess = []
+        for si in range(3):
+            w = drf.DigitalRFWriter(chdir, np.int16, sc, fc, start + 40 * si, n, d, is_complex=False, is_continuous=(mode == "cont"),
+                                    compression_level=0, checksum=False, marching_periods=False)
+            w.rf_write(np.arange(5, dtype=np.int16))
+            uid = w.uuid
+            w.close()
+            sess.append((uid, start + 40 * si))
+        part["evaluations"] += 1
+        if len({u for u, _ in sess}) != len(sess):
+            part["violations"].append(core.Violation({"class": "session_uuid_not_per_session"}, {"default_uuid": mode},
+                                                     "three sessions started without uuid_str report the identifiers %s" % [u for u, _ in sess]))
+        for rel in rf.list_tree(chdir):
+            if "/rf@" not in rel:
+                continue
+            with h5py.File(os.path.join(chdir, rel), "r") as f:
+                a = f["rf_data"].attrs
+                fu = a["uuid_str"]
+                fu = fu.decode() if isinstance(fu, bytes) else str(fu)
+                first = int(f["rf_data_index"][0, 0])
+            owner = [u for u, s0 in sess if s0 <= first < s0 + 40]
+            part["evaluations"] += 1
+            if owner and fu != owner[0]:
+                part["violations"].append(core.Violation({"class": "file_uuid_not_its_sessions"}, {"default_uuid": mode},
+                                                         "%s carries uuid %s, its session reported %s" % (rel, fu, owner[0])))
+        part["traces"] += 1
+        part["states"].add(core.canon(("default_uuid", mode)))
+        part["nontrivial"].add(core.canon(("default_uuid", mode)))
+        part["outcomes"]["default_uuid_sessions"] += 1
+    finally:
+        core.rm(top)
+    return part
+
+
 def replay(case):
+    if "default_uuid" in case:
+        return [(v["key"], v["detail"]) for v in run_default_uuid(case["default_uuid"])["violations"]]
     return rfjobs.replay_hist(case)
 
 
@@ -72,5 +124,7 @@ def main(tier):
     rot = core.seed() % max(1, len(js))
     js = js[rot:] + js[:rot]
     for part in core.pmap(rfjobs.run_hist_job, js, chunksize=1):
+        chk.merge(part)
+    for part in core.pmap(run_default_uuid, ["gapped", "cont"], chunksize=1):
         chk.merge(part)
     return chk.finish()
